@@ -60,6 +60,8 @@ def snapshot(root):
 def restore(root, snap):
     if os.path.isdir(root):
         shutil.rmtree(root)
+    if os.path.isdir(os.path.realpath(root) + '.tmpfs'):
+        shutil.rmtree(os.path.realpath(root) + '.tmpfs')    # the simulated $TMPDIR starts empty with every world
     os.makedirs(root)
     for r in sorted(snap):
         if r.endswith('/'):
